@@ -7,9 +7,12 @@ What is transcribed
   dictionary.  So there are two layers: the C-level dict (`raw`: what `getattr/hasattr/len` and
   `object.__setattr__/__delattr__` see) and `odict._keys` (`keys`: what `keys()/items()` walk).
   `Data.__setattr__` first asks `object.__getattribute__`; if that succeeds (an existing field **or
-  a class attribute** such as the method `_sift`) it forwards to `object.__setattr__`, which writes
-  the C-level dict only — defect D11, kept in the model (`classAttr`, the 30 names of
-  `dir(Data())` on CPython 3.12).
+  a class attribute** such as the method `_sift`) the code as found forwarded to
+  `object.__setattr__`, which writes the C-level dict only — defect D11 (`setattrLegacy`).  With
+  `fixes/D11-class-attribute-names-are-not-fields.patch` it forwards only for an existing field,
+  for `__dict__` and for data descriptors of the class; every other class attribute name is
+  refused; and `Share.__contains__` / `__getitem__` read the dict, not `hasattr/getattr`.
+  (`classAttr`: the 30 names of `dir(Data())` on CPython 3.12.)
 * Repairs that ARE assumed (patch files in `/verif/fixes`): D11b `Data.__delattr__` pops from the
   odict (unpatched: `del share[k]` leaves `k` in the key list and `items()` raises); D11c the name
   test uses `fullmatch` (unpatched: a trailing newline is accepted); D11d `Share.setdefault` goes
@@ -112,15 +115,32 @@ def hasattr (d : Data) (k : Str) : Bool :=
 def odictSet (d : Data) (k : Str) (v : Val) : Data :=
   { raw := rawSet d.raw k v, keys := if d.keys.contains k then d.keys else d.keys ++ [k] }
 
-/-- `Data.__setattr__(k, v)` (with the D11c repair: `fullmatch`) -/
+/-- `Data.__setattr__(k, v)` with the repairs D11c (`fullmatch`) and D11 (a class attribute that
+is neither an existing field, nor `__dict__`, nor a data descriptor is not forwarded) -/
 def setattr (d : Data) (k : Str) (v : Val) : Data × Option Err :=
   if hasattr d k then
-    -- `super().__setattr__(key, value)` = `object.__setattr__`
+    if (lookup d.raw k).isNone && classAttr k != some .dictPtr && classAttr k != some .weakref then
+      (d, some .attributeError)                              -- D11 repair
+    else
+      -- `super().__setattr__(key, value)` = `object.__setattr__`
+      match classAttr k with
+      | some .classPtr => (d, some .typeError)
+      | some .dictPtr => (d, some .typeError)
+      | some .weakref => (d, some .attributeError)
+      | _ => ({ d with raw := rawSet d.raw k v }, none)     -- existing field: C-level dict, keys untouched
+  else if (lookup d.raw k).isSome || identPub k then
+    (odictSet d k v, none)
+  else (d, some .attributeError)
+
+/-- `Data.__setattr__` as found in `/repo` before the D11 repair: whenever `object.__getattribute__`
+succeeds — also for a method name — the value goes to `object.__setattr__` -/
+def setattrLegacy (d : Data) (k : Str) (v : Val) : Data × Option Err :=
+  if hasattr d k then
     match classAttr k with
     | some .classPtr => (d, some .typeError)
     | some .dictPtr => (d, some .typeError)
     | some .weakref => (d, some .attributeError)
-    | _ => ({ d with raw := rawSet d.raw k v }, none)       -- C-level dict only: keys untouched
+    | _ => ({ d with raw := rawSet d.raw k v }, none)
   else if (lookup d.raw k).isSome || identPub k then
     (odictSet d k v, none)
   else (d, some .attributeError)
@@ -253,28 +273,31 @@ def step (w : World) : Op → World × Out
     let r := setattr w.data k v
     ({ w with data := r.1 }, outE (r.2.map toKey))
   | .getItem k =>
-    match getattr w.data k with
-    | .ok v => (w, .val v)
-    | .error e => (w, .err (toKey e))
+    -- `self._data.__dict__[key]` (D11 repair)
+    match lookup w.data.raw k with
+    | some v => (w, .val v)
+    | none => (w, .err .keyError)
   | .delItem k =>
     let r := delattr w.data k
     ({ w with data := r.1 }, outE (r.2.map toKey))
-  | .contains k => (w, .bool (hasattr w.data k))
+  | .contains k => (w, .bool (lookup w.data.raw k).isSome)     -- `key in self._data.__dict__`
   | .get k =>
     -- `if key in self: return self[key] else: return default`
-    match getattr w.data k with
-    | .ok v => (w, .val v)
-    | .error _ => (w, .val .none)
+    match lookup w.data.raw k with
+    | some v => (w, .val v)
+    | none => (w, .val .none)
   | .keys => (w, .strs w.data.keys)
   | .items =>
     match items w.data with
     | .ok l => (w, .pairs l)
     | .error e => (w, .err e)
   | .values =>
-    -- `[self[key] for key in self.keys()]`: `Share.__getitem__`, i.e. `getattr`
-    match w.data.keys.mapM (fun k => getattr w.data k) with
+    -- `[self[key] for key in self.keys()]`: `Share.__getitem__`
+    match w.data.keys.mapM (fun k => match lookup w.data.raw k with
+        | some v => (Except.ok v : Except Err Val)
+        | none => .error .keyError) with
     | .ok l => (w, .vals l)
-    | .error e => (w, .err (toKey e))
+    | .error e => (w, .err e)
   | .len => (w, .nat w.data.raw.length)
   | .pop k =>
     -- `odict.pop(key)`: `dict.pop` then the key list
@@ -324,19 +347,7 @@ def run : World → List Op → World
   | w, [] => w
   | w, op :: ops => run (step w op).1 ops
 
-/-! ### regions of the known findings (evaluated by the driver for the harness) -/
-
-def pairsUseClassAttr (ps : List (Str × Val)) : Bool := ps.any (fun p => (classAttr p.1).isSome)
-
-/-- D11: the operation names a class attribute of `Data` as a field -/
-def usesClassAttr : Op → Bool
-  | .update ps | .change ps | .create ps => pairsUseClassAttr ps
-  | .setItem k _ | .getItem k | .delItem k | .contains k | .get k | .pop k | .setdefault k _
-  | .insert _ k _ =>
-    (classAttr k).isSome
-  | _ => false
-
-def regionD11 (ops : List Op) : Bool := ops.any usesClassAttr
+/-! ### region of the known finding D11e (evaluated by the driver for the harness) -/
 
 /-- D11e: `None` is put on the deck with `push` -/
 def regionD11e (ops : List Op) : Bool := ops.any (fun op => op = .push .none)
